@@ -20,5 +20,5 @@ fn describe(rep: &mut Report) {
     rep.assume("a UTxO set is a function: the same outpoint is never offered with two values");
     rep.assume("the oracle is applied only when balancing returned Ok and build_tx returned a transaction");
     rep.trusted_base = vec!["notes/ledger_rules.md §1 (preservation of value, deposit/refund table)".into(), "harness/src/refcbor.rs, harness/src/ledger.rs".into()];
-    rep.required_hits = vec!["conserved", "balanced-with-change", "balanced-without-change", "several-change-outputs", "token-change-split-over->=2-outputs", "tx-with-mint", "tx-with-withdrawal", "tx-with-donation", "tx-with-certificate", "inputs-selected", "err:not-enough-ada-for-asset-change", "fee<2^32"];
+    rep.required_hits = vec!["conserved", "balanced-with-change", "balanced-without-change", "several-change-outputs", "token-change-split-over->=2-outputs", "pure-ada-change-next-to-token-change", "single-pure-ada-change", "no-change-output(leftover-folded-into-fee-or-exact)", "collateral-return-in-body", "tx-with-redeemers", "selection-added-inputs", "err:burn-refused", "tx-with-mint", "tx-with-withdrawal", "tx-with-donation", "tx-with-certificate", "inputs-selected", "err:not-enough-ada-for-asset-change", "fee<2^32"];
 }
